@@ -316,7 +316,7 @@ func genTmplT(t *rapid.T, names []string, forbidden map[string]bool) []gen.TmplP
 		}
 	}
 	if rapid.IntRange(0, 6).Draw(t, "tmpl-fail") == 0 {
-		parts = append(parts, gen.TmplPart{Kind: rapid.SampledFrom([]string{"fail_unixToTime", "fail_regex"}).Draw(t, "tmpl-failkind"), A: "nosuchlabel"})
+		parts = append(parts, gen.TmplPart{Kind: rapid.SampledFrom([]string{"fail_unixToTime", "fail_regex", "fail_field", "fail_argtype", "fail_argcount", "fail_index"}).Draw(t, "tmpl-failkind"), A: "nosuchlabel"})
 	}
 	if !forbidden["ts"] && rapid.IntRange(0, 3).Draw(t, "tmpl-maybe-fail") == 0 {
 		parts = append(parts, gen.TmplPart{Kind: "unix_of_label", A: "ts"})
